@@ -59,7 +59,7 @@ def sqrtEps : α := (1 : α) / RealLike.ofNat 67108864
 /-- `ε = 2⁻⁵²` -/
 def eps : α := (1 : α) / RealLike.ofNat 4503599627370496
 
-/-- `Math::tauf` (`numit = 5`) -/
+/-- `Math::tauf` (`numit = 50` since 707b423) -/
 def tauf (taup es : α) : α :=
   let tol : α := sqrtEps / 10
   let taumax : α := (2 : α) / sqrtEps
@@ -67,7 +67,7 @@ def tauf (taup es : α) : α :=
   let tau := if RealLike.ltb (70 : α) (RealLike.abs taup) then taup * RealLike.exp (eatanhe (1 : α) es) else taup / e2m
   let stol := tol * RealLike.max (1 : α) (RealLike.abs taup)
   -- (the early exit is taken only with the asymptotic guess, |taup| > 70: b3c5a1d)
-  if !(RealLike.ltb (RealLike.abs tau) taumax) && !(RealLike.leb (RealLike.abs taup) (70 : α)) then tau else taufLoop taup es e2m stol 5 tau
+  if !(RealLike.ltb (RealLike.abs tau) taumax) && !(RealLike.leb (RealLike.abs taup) (70 : α)) then tau else taufLoop taup es e2m stol 50 tau
 
 /-- did the Newton loop of `Math::tauf` stop by its tolerance (and not by the iteration cap)?  The cap is silent in the
     code (`GEOGRAPHICLIB_PANIC` is `false` for binary64): the correspondence compares values only where the coded loop
@@ -84,7 +84,7 @@ def taufConv (taup es : α) : Bool :=
   let e2m := (1 : α) - es * RealLike.abs es
   let tau := if RealLike.ltb (70 : α) (RealLike.abs taup) then taup * RealLike.exp (eatanhe (1 : α) es) else taup / e2m
   let stol := tol * RealLike.max (1 : α) (RealLike.abs taup)
-  if !(RealLike.ltb (RealLike.abs tau) taumax) && !(RealLike.leb (RealLike.abs taup) (70 : α)) then true else taufLoopConv taup es e2m stol 5 tau
+  if !(RealLike.ltb (RealLike.abs tau) taumax) && !(RealLike.leb (RealLike.abs taup) (70 : α)) then true else taufLoopConv taup es e2m stol 50 tau
 
 /-! ## PolarStereographic -/
 
@@ -191,7 +191,10 @@ def Dasinh (x y hx hy : α) : α :=
 def Deatanhe (e2 es x y : α) : α :=
   let t := x - y
   let d := (1 : α) - e2 * x * y
-  if !(RealLike.eqb t (0 : α)) then eatanhe (t / d) es / t else e2 / d
+  -- (for `x·y < 0` the straight difference, as `AlbersEqualArea::Datanhee`: 36a144d)
+  if !(RealLike.eqb t (0 : α)) then
+    (if RealLike.ltb (x * y) (0 : α) then eatanhe x es - eatanhe y es else eatanhe (t / d) es) / t
+  else e2 / d
 
 /-- `AlbersEqualArea::atanhee(x)` (`e = √|e²|`) -/
 def atanhee (f e x : α) : α :=
